@@ -103,6 +103,25 @@ def directed_cases(tier):
                         "ops": [["bob", "dev", n], ["user", u, 0, "a.txt", "MARK%dXd%d" % (n, n)], S[sp],
                                 ["bob", "dev", n + 100], ["bob", "clean-s", n + 200], ["bob", "clean-attic", n + 300],
                                 ["bob", "dev", n + 400]]})
+    # convergence of an untouched workspace over several spec and upstream changes: the branch that
+    # is *not* checked out moves upstream while Bob fetches, then the recipe returns to it
+    U = lambda k, br, tag="t0": ["up", k, 0, br, "a.txt", "conv-%s-%s" % (k, br), tag]
+    B = lambda br: ["spec", "branch", br, "t0", ".", 0]
+    conv = [
+        [B("dev"), ["bob", "dev", 2], U("commit", "master"), ["bob", "dev", 3], B("master"), ["bob", "dev", 4]],
+        [B("dev"), ["bob", "dev", 2], U("commit", "master"), U("commit", "dev"), ["bob", "dev", 3], B("master"), ["bob", "dev", 4],
+         B("dev"), ["bob", "dev", 5]],
+        [U("tag", "master"), ["spec", "tag", "master", "t0", ".", 0], ["bob", "dev", 2], U("commit", "master"), ["bob", "dev", 3],
+         B("master"), ["bob", "dev", 4]],
+        [B("dev"), ["bob", "dev", 2], U("commit", "master"), ["bob", "dev", 3], U("commit", "master"), B("master"), ["bob", "dev", 4]],
+    ]
+    convs = []
+    for release in (False, True):
+        for i, tail in enumerate(conv):
+            convs.append({"nrepo": 1, "spec": {"scms": [{"type": "git", "repo": 0, "branch": "master", "dir": "."}]},
+                          "release": release, "directed": "convergence %d" % i, "ops": [["bob", "dev", 1]] + tail})
+    if tier != "thorough":
+        convs = convs[:4] + convs[4::2]
     if tier != "thorough":
         npairs = len(pairs)
         out = out[:6] + out[12:16] + out[npairs:npairs + 2] + out[npairs + 2::3] + out[2 * npairs - 4:]
@@ -113,7 +132,7 @@ def directed_cases(tier):
                 seen.add(k)
                 uniq.append(c)
         out = uniq
-    return out
+    return out + convs
 
 # ---------------------------------------------------------------------------
 
